@@ -13,7 +13,7 @@ gradual underflow and overflow to infinity).
   pyMod              CPython `float_rem`   (`x % y` on floats)
   norm360            `x % 360.0 % 360.0`
   fmt6               `'%.6f' % x`  (correctly rounded, ties to even on the exact binary value)
-  formatFloat        `srctools.math.format_float` as coded
+  formatFloat        `srctools.math.format_float` as coded (prints `-0` for negative values that round to zero)
   parseDec           `float(str)` for decimal literals
 
 Everything here is compared bit for bit with CPython by `harness/p_c05.py`.
@@ -213,16 +213,20 @@ def fmt6 : Val → List Char
 /-- `str.rstrip(c)` for a single character -/
 def rstrip (c : Char) (l : List Char) : List Char := (l.reverse.dropWhile (· == c)).reverse
 
-/-- `format_float(x)` of the source *before* the repair of the `-0` defect:
-`result = f'{x+0.0:.6f}'; if '.' in result: result = result.rstrip('0').rstrip('.')`. -/
-def formatFloatOld (x : Val) : List Char :=
+/-- `format_float(x)` as coded (places = 6):
+`result = f'{x+0.0:.6f}'; if '.' in result: result = result.rstrip('0').rstrip('.')`.
+(Adding 0.0 turns -0.0 into 0.0, but a negative value that rounds to zero still prints as `-0`; the repo's own
+test-suite pins that output for vectors.) -/
+def formatFloat (x : Val) : List Char :=
   let s := fmt6 (add x zero)
   if s.contains '.' then rstrip '.' (rstrip '0' s) else s
 
-/-- `format_float(x)` as coded now (places = 6): as above, then `if result == '-0': result = '0'`. -/
-def formatFloat (x : Val) : List Char :=
-  let s := formatFloatOld x
-  if s == ['-', '0'] then ['0'] else s
+/-- the value is negative and rounds to zero at six places (`-5e-7 ≤ x < 0`): exactly the inputs that
+`format_float` prints as `-0`. -/
+def negRoundsToZero (x : Val) : Bool :=
+  match add x zero with
+  | .fin true m => roundHE (m * 1000000) U == 0
+  | _ => false
 
 /-! `float(str)` for decimal literals: `[+-] digits [. digits] [e [+-] digits]`, `[+-] . digits …`,
 `[+-] inf|infinity|nan` (any case). No surrounding white space, no underscores (`none` = ValueError). -/
